@@ -45,6 +45,32 @@
 (*   ReaderAgrees  - what the walker decoded is the abstract section        *)
 (*       (Dec(Enc(obj)) = obj, non-minimal LEB128 groups included).         *)
 (*                                                                         *)
+(* Client sessions (strengthening round 4).  What an object yields is a      *)
+(* function of the bytes of its extent, so it must not depend on what the    *)
+(* same object was asked before - in particular not on an iteration that was *)
+(* started and abandoned.  After the walk a client picks ONE object (`tgt`:  *)
+(* the section, subsection i, or sub-subsection (i, j)) and issues a         *)
+(* sequence of public calls on it, one action (ClientCall) per call, the     *)
+(* expected answer (the positions of the children yielded, or a count)       *)
+(* being logged with the call:                                               *)
+(*   take(k)   a new iteration, abandoned after k items (k = 0: created,     *)
+(*             never advanced; k = n: all items, end not signalled)          *)
+(*   all       a complete iteration        list   the list property          *)
+(*   num       the num_* property                                            *)
+(*   filt(p)   a complete iteration filtered by the key (vendor / scope /    *)
+(*             tag) of child p (p = 0: a key no child has)                   *)
+(*   ftake(p)  ... abandoned after its first item                            *)
+(*   open / step   one long-lived iteration advanced between other calls     *)
+(* Disciplines: "free" (every sequence of MaxCalls calls, on a small         *)
+(* population of objects: FreeOK), scripted "sweep"                          *)
+(* and "probe" (two orders of abandon / re-enumerate / count / filter with   *)
+(* one iteration kept open throughout).  Checked on the specification:       *)
+(* SessionAnswers (the logged answer = what the walker machine decoded from  *)
+(* the bytes of the target's extent yields, whatever preceded),              *)
+(* AnswersHistoryFree (equal calls have equal answers), SessIterInOrder,     *)
+(* SessionFrame.  Every finished session is emitted and replayed on one      *)
+(* fresh object of one fresh file.                                           *)
+(*                                                                         *)
 (* Not asserted (the standards do not fix them): unknown tags (the property *)
 (* quantifies over the two tag tables only); the                            *)
 (* content of vendor-private subsections (all subsections generated here    *)
@@ -67,11 +93,18 @@ EXTENDS Elf, TLC, Json, CSV, IOUtils
 CONSTANTS Modes,         \* subset of {"tags", "numbers", "lists", "shape"}
           MaxAttrs,      \* "lists": attributes per sub-subsection
           MaxSubsub,     \* "shape": sub-subsections per subsection (two-subsection sections)
-          MaxSubsub1     \* "shape": sub-subsections in a single-subsection section
+          MaxSubsub1,    \* "shape": sub-subsections in a single-subsection section
+          SessEnvs,      \* client sessions: on "shape" objects of these environments ...
+          SessMaxSubs,   \* ... with at most this many subsections (0: no sessions)
+          MaxCalls,      \* length of the "free" sessions (population: FreeOK)
+          FreeEnvs,      \* ... in these environments
+          FreeMaxSubsub  \* "free" sessions on sub-subsection objects: only when the subsection has at most this many of them
 
-VARIABLES Mode, env, obj, phase, bytes, decl, rd
-vars == <<Mode, env, obj, phase, bytes, decl, rd>>
+VARIABLES Mode, env, obj, phase, bytes, decl, rd,
+          sess           \* client session: [tgt (the object addressed), disc, log of answered calls, it (items the open iterator has yielded; -1: none)]
+vars == <<Mode, env, obj, phase, bytes, decl, rd, sess>>
 AllModes == {"tags", "numbers", "lists", "shape"}
+NoSess == [tgt |-> <<0, 0, 0>>, disc |-> "none", log |-> <<>>, it |-> -1]
 
 (* ----------------------------- tag tables ------------------------------ *)
 \* ABI addenda 3.3, table "Public aeabi attribute tags": parameter type per tag
@@ -227,11 +260,11 @@ WalkSubsection ==
          v == CStrAt(bytes, rd.p1 + 4)
      IN rd' = [rd EXCEPT !.lvl = 2, !.p2 = rd.p1 + 4 + v.used, !.e2 = rd.p1 + L,
                          !.out = Append(@, SubSec(v.s, <<>>)), !.log = Append(@, <<1, rd.p1, L>>)]
-  /\ UNCHANGED <<Mode, env, obj, phase, bytes, decl>>
+  /\ UNCHANGED <<Mode, env, obj, phase, bytes, decl, sess>>
 EndSection ==
   /\ phase = "walk" /\ rd.lvl = 1 /\ rd.p1 = End1
   /\ phase' = "done"
-  /\ UNCHANGED <<Mode, env, obj, bytes, decl, rd>>
+  /\ UNCHANGED <<Mode, env, obj, bytes, decl, rd, sess>>
 \* sub-subsection loop of the current subsection
 WalkSubsubsection ==
   /\ phase = "walk" /\ rd.lvl = 2 /\ rd.p2 # rd.e2
@@ -242,21 +275,21 @@ WalkSubsubsection ==
          ns == IF scope = 1 THEN [ns |-> <<>>, used |-> 0] ELSE NumsAt(bytes, hd)
      IN rd' = [rd EXCEPT !.lvl = 3, !.p3 = hd + ns.used, !.e3 = rd.p2 + size,
                          !.out = AppendSubsub(@, SubSub(scope, ns.ns, <<>>)), !.log = Append(@, <<2, rd.p2, size>>)]
-  /\ UNCHANGED <<Mode, env, obj, phase, bytes, decl>>
+  /\ UNCHANGED <<Mode, env, obj, phase, bytes, decl, sess>>
 EndSubsection ==
   /\ phase = "walk" /\ rd.lvl = 2 /\ rd.p2 = rd.e2
   /\ rd' = [rd EXCEPT !.lvl = 1, !.p1 = rd.e2, !.closed = @ + 1]            \* e2 = start of this subsection + its length
-  /\ UNCHANGED <<Mode, env, obj, phase, bytes, decl>>
+  /\ UNCHANGED <<Mode, env, obj, phase, bytes, decl, sess>>
 \* attribute loop of the current sub-subsection
 WalkAttribute ==
   /\ phase = "walk" /\ rd.lvl = 3 /\ rd.p3 # rd.e3
   /\ LET r == AttrAt(env.table, bytes, rd.p3) IN
      rd' = [rd EXCEPT !.p3 = @ + r.used, !.out = AppendAttr(@, r.a), !.log = Append(@, <<3, rd.p3, r.used>>)]
-  /\ UNCHANGED <<Mode, env, obj, phase, bytes, decl>>
+  /\ UNCHANGED <<Mode, env, obj, phase, bytes, decl, sess>>
 EndSubsubsection ==
   /\ phase = "walk" /\ rd.lvl = 3 /\ rd.p3 = rd.e3
   /\ rd' = [rd EXCEPT !.lvl = 2, !.p2 = rd.e3, !.closed = @ + 1]            \* e3 = start of this sub-subsection + its size
-  /\ UNCHANGED <<Mode, env, obj, phase, bytes, decl>>
+  /\ UNCHANGED <<Mode, env, obj, phase, bytes, decl, sess>>
 
 (* ---------------------------- (B) the writer --------------------------- *)
 Str(s) == s
@@ -309,7 +342,7 @@ Light(s) == Len(s.subsubs) <= 2 /\ \A j \in 1..Len(s.subsubs) : s.subsubs[j].sco
 
 One(table, ss) == <<SubSec(Vendor(table, 1), <<ss>>)>>
 Init ==
-  /\ Mode \in Modes /\ rd = Rd0
+  /\ Mode \in Modes /\ rd = Rd0 /\ sess = NoSess
   /\ CASE Mode = "tags" ->
             \E e \in EnvsAll : \E a \in SweepAttrs(e.table) :
                /\ env = e /\ obj = One(e.table, SubSub(1, <<>>, <<a, Sentinel(e.table)>>)) /\ phase = "walk"
@@ -329,26 +362,89 @@ NewSubsection ==
   /\ (Len(obj) = 1 => Len(obj[1].subsubs) <= MaxSubsub)
   /\ (Len(obj) = 2 => Light(obj[1]) /\ Light(obj[2]))                  \* three subsections: light ones only (bounds the product)
   /\ obj' = Append(obj, SubSec(Vendor(env.table, Len(obj) + 1), <<>>))
-  /\ UNCHANGED <<Mode, env, phase, bytes, decl, rd>>
+  /\ UNCHANGED <<Mode, env, phase, bytes, decl, rd, sess>>
 NewSubsubsection(v) ==
   /\ phase = "build" /\ Mode = "shape" /\ Len(obj) >= 1
   /\ Len(obj[Len(obj)].subsubs) < (IF Len(obj) = 1 THEN MaxSubsub1 ELSE IF Len(obj) = 2 THEN MaxSubsub ELSE 2)
   /\ (Len(obj) = 3 => v # 3)
   /\ (v = 4 => Len(obj) = 1)
   /\ obj' = [obj EXCEPT ![Len(obj)].subsubs = Append(@, ShapeVariant(env.table, v))]
-  /\ UNCHANGED <<Mode, env, phase, bytes, decl, rd>>
+  /\ UNCHANGED <<Mode, env, phase, bytes, decl, rd, sess>>
 AddAttribute(a) ==
   /\ phase = "build" /\ Mode = "lists" /\ Len(obj[1].subsubs[1].attrs) < MaxAttrs
   /\ obj' = [obj EXCEPT ![1].subsubs[1].attrs = Append(@, a)]
-  /\ UNCHANGED <<Mode, env, phase, bytes, decl, rd>>
+  /\ UNCHANGED <<Mode, env, phase, bytes, decl, rd, sess>>
 Finish ==
   /\ phase = "build" /\ Len(obj) >= 1 /\ Len(obj[Len(obj)].subsubs) >= 1
   /\ phase' = "walk"
   /\ bytes' = Enc(obj, env.le)
   /\ decl' = Declared(obj, env.le)
-  /\ UNCHANGED <<Mode, env, obj, rd>>
+  /\ UNCHANGED <<Mode, env, obj, rd, sess>>
+
+(* --------------------------- client sessions --------------------------- *)
+\* the object a session addresses: <<1, 0, 0>> the section, <<2, i, 0>> subsection i, <<3, i, j>> sub-subsection j of subsection i
+KidsIn(o, t) == CASE t[1] = 1 -> o [] t[1] = 2 -> o[t[2]].subsubs [] t[1] = 3 -> o[t[2]].subsubs[t[3]].attrs
+Kids(t) == KidsIn(obj, t)
+\* the key an iteration can be filtered by: vendor name / scope / tag
+KeyIn(o, t, k) == LET c == KidsIn(o, t)[k] IN CASE t[1] = 1 -> c.vendor [] t[1] = 2 -> <<c.scope>> [] t[1] = 3 -> <<c.tag>>
+Targets == {<<1, 0, 0>>} \cup {<<2, i, 0>> : i \in 1..Len(obj)}
+           \cup UNION {{<<3, i, j>> : j \in 1..Len(obj[i].subsubs)} : i \in 1..Len(obj)}
+Upto(n) == [k \in 1..n |-> k]
+MatchingIn(o, t, p) == IF p = 0 THEN <<>> ELSE SelectSeq(Upto(Len(KidsIn(o, t))), LAMBDA k : KeyIn(o, t, k) = KeyIn(o, t, p))
+\* the first child of each key
+FiltPos(t) == {p \in 1..Len(Kids(t)) : \A k \in 1..(p - 1) : KeyIn(obj, t, k) # KeyIn(obj, t, p)}
+RECURSIVE AscSeq(_)
+AscSeq(S) == IF S = {} THEN <<>> ELSE LET m == Min(S) IN <<m>> \o AscSeq(S \ {m})
+Letter(op, q) == [op |-> op, q |-> q]
+Call(op, q, a) == [op |-> op, q |-> q, a |-> a]
+\* the answer the property fixes: the positions (among the target's children, in order) of what the call yields; num: the count
+AnswerIn(o, t, l, it) ==
+  LET n == Len(KidsIn(o, t)) IN
+  CASE l.op = "take" -> Upto(Min({l.q, n}))
+    [] l.op \in {"all", "list"} -> Upto(n)
+    [] l.op = "num" -> <<n>>
+    [] l.op = "filt" -> MatchingIn(o, t, l.q)
+    [] l.op = "ftake" -> LET m == MatchingIn(o, t, l.q) IN IF m = <<>> THEN <<>> ELSE <<m[1]>>
+    [] l.op = "open" -> <<>>
+    [] l.op = "step" -> IF it < n THEN <<it + 1>> ELSE <<>>
+NextIt(t, l, it) == CASE l.op = "open" -> 0 [] l.op = "step" -> (IF it < Len(Kids(t)) THEN it + 1 ELSE it) [] OTHER -> it
+FreeLetters(t, it) ==
+  {Letter("take", k) : k \in {1, 2}} \cup {Letter(o, 0) : o \in {"all", "num", "list", "open"}}
+  \cup {Letter("filt", p) : p \in FiltPos(t)} \cup {Letter("ftake", p) : p \in FiltPos(t)}
+  \cup (IF it >= 0 THEN {Letter("step", 0)} ELSE {})
+Script(t, disc) ==
+  LET n == Len(Kids(t))   fp == AscSeq(FiltPos(t))
+      steps(m) == [i \in 1..m |-> Letter("step", 0)]
+  IN CASE disc = "sweep" ->
+            <<Letter("open", 0), Letter("take", 1), Letter("step", 0), Letter("num", 0), Letter("take", 0), Letter("list", 0)>>
+            \o Flat([i \in 1..Len(fp) |-> <<Letter("ftake", fp[i]), Letter("filt", fp[i])>>])
+            \o <<Letter("filt", 0), Letter("take", n), Letter("all", 0)>> \o steps(n) \o <<Letter("num", 0)>>
+       [] disc = "probe" ->
+            (IF fp = <<>> THEN <<>> ELSE <<Letter("ftake", fp[Len(fp)])>>)
+            \o <<Letter("all", 0), Letter("take", 2), Letter("list", 0), Letter("open", 0), Letter("take", 1), Letter("num", 0)>>
+            \o steps(n + 1)
+            \o Flat([i \in 1..Len(fp) |-> <<Letter("filt", fp[Len(fp) + 1 - i])>>]) \o <<Letter("all", 0)>>
+SessOK(t) == Mode = "shape" /\ env \in SessEnvs /\ Len(obj) <= SessMaxSubs
+\* "free" sessions: the section of two-subsection objects with one sub-subsection each; the subsection of single-subsection
+\* objects; their sub-subsections when there are at most FreeMaxSubsub
+FreeOK(t) == /\ Mode = "shape" /\ MaxCalls > 0 /\ env \in FreeEnvs
+             /\ CASE t[1] = 1 -> Len(obj) = 2 /\ \A i \in 1..2 : Len(obj[i].subsubs) = 1
+                  [] t[1] = 2 -> Len(obj) = 1
+                  [] t[1] = 3 -> Len(obj) = 1 /\ Len(obj[1].subsubs) <= FreeMaxSubsub
+StartSession(t, disc) ==
+  /\ phase = "done" /\ (IF disc = "free" THEN FreeOK(t) ELSE SessOK(t))
+  /\ sess' = [tgt |-> t, disc |-> disc, log |-> <<>>, it |-> -1]
+  /\ phase' = "sess" /\ UNCHANGED <<Mode, env, obj, bytes, decl, rd>>
+SessLen == IF sess.disc = "free" THEN MaxCalls ELSE Len(Script(sess.tgt, sess.disc))
+ClientCall ==
+  /\ phase = "sess" /\ Len(sess.log) < SessLen
+  /\ \E l \in (IF sess.disc = "free" THEN FreeLetters(sess.tgt, sess.it) ELSE {Script(sess.tgt, sess.disc)[Len(sess.log) + 1]}) :
+       sess' = [sess EXCEPT !.log = Append(@, Call(l.op, l.q, AnswerIn(obj, sess.tgt, l, sess.it))), !.it = NextIt(sess.tgt, l, sess.it)]
+  /\ UNCHANGED <<Mode, env, obj, phase, bytes, decl, rd>>
+SessNext == (\E t \in Targets, disc \in {"free", "sweep", "probe"} : StartSession(t, disc)) \/ ClientCall
 
 Next ==
+  \/ SessNext
   \/ NewSubsection \/ (\E v \in 1..4 : NewSubsubsection(v)) \/ (\E a \in ListAlphabet(env.table) : AddAttribute(a)) \/ Finish
   \/ WalkSubsection \/ WalkSubsubsection \/ WalkAttribute \/ EndSubsubsection \/ EndSubsection \/ EndSection
 Spec == Init /\ [][Next]_vars
@@ -368,12 +464,19 @@ AttrImage(e, data) ==
 
 (* ------------------------------ emission ------------------------------- *)
 Shape(o) == [i \in 1..Len(o) |-> [j \in 1..Len(o[i].subsubs) |-> Len(o[i].subsubs[j].attrs)]]
+\* identity of a "shape" object (its sessions are lines of their own): environment + variant of every sub-subsection
+VariantOf(ss) == IF \E v \in 1..4 : ShapeVariant(env.table, v) = ss THEN CHOOSE v \in 1..4 : ShapeVariant(env.table, v) = ss ELSE 0
+ObjKey == IF Mode = "shape" THEN ToString(<<env.table, env.cls, env.le, [i \in 1..Len(obj) |-> [j \in 1..Len(obj[i].subsubs) |-> VariantOf(obj[i].subsubs[j])]]>>)
+          ELSE ""
+SessLine == [t |-> "sess", key |-> ObjKey, tgt |-> sess.tgt, disc |-> sess.disc,
+             log |-> [i \in 1..Len(sess.log) |-> <<sess.log[i].op, sess.log[i].q, sess.log[i].a>>]]
 Emit ==
-  phase = "done" =>
-    CSVWrite("%1$s", <<ToJson([mode |-> Mode, table |-> env.table, cls |-> env.cls, le |-> env.le,
-                               secname |-> SecName(env.table), shape |-> Shape(obj), size |-> Len(bytes),
-                               chunks |-> Chunks(AttrImage(env, bytes)),
-                               view |-> AttrsView(env.table, obj, env.le)])>>, IOEnv.OUT)
+  /\ phase = "done" =>
+       CSVWrite("%1$s", <<ToJson([t |-> "case", key |-> ObjKey, mode |-> Mode, table |-> env.table, cls |-> env.cls, le |-> env.le,
+                                  secname |-> SecName(env.table), shape |-> Shape(obj), size |-> Len(bytes),
+                                  chunks |-> Chunks(AttrImage(env, bytes)),
+                                  view |-> AttrsView(env.table, obj, env.le)])>>, IOEnv.OUT)
+  /\ (phase = "sess" /\ Len(sess.log) = SessLen => CSVWrite("%1$s", <<ToJson(SessLine)>>, IOEnv.OUT))
 
 (* --------------------------- (D) properties ---------------------------- *)
 IsPrefix(a, b) == Len(a) <= Len(b) /\ \A i \in 1..Len(a) : a[i] = b[i]
@@ -409,6 +512,37 @@ AlsoTerminated ==
        IN /\ e[Len(e)] = 0
           /\ r.a = a.sub[1]
           /\ t + r.used + (IF r.a.kind = "uleb" THEN 1 ELSE 0) = Len(e)
+\* sessions.  The answer logged for the latest call is what the walker machine's reading of the bytes (rd.out: what it decoded
+\* inside the target's extent) yields when asked afresh, whatever calls preceded it on the same object
+SessionAnswers ==
+  phase = "sess" /\ sess.log # <<>> =>
+    LET c == sess.log[Len(sess.log)]   t == sess.tgt   n == Len(KidsIn(rd.out, t)) IN
+    CASE c.op = "take" -> c.a = Upto(Min({c.q, n}))
+      [] c.op \in {"all", "list"} -> c.a = Upto(n)
+      [] c.op = "num" -> c.a = <<n>>
+      \* sound and complete: exactly the children that carry the key of child q, in order
+      [] c.op = "filt" -> /\ \A x \in 1..Len(c.a) : c.a[x] \in 1..n /\ KeyIn(rd.out, t, c.a[x]) = KeyIn(rd.out, t, c.q)
+                          /\ \A x \in 1..(Len(c.a) - 1) : c.a[x] < c.a[x + 1]
+                          /\ (c.q > 0 => \A k \in 1..n : KeyIn(rd.out, t, k) = KeyIn(rd.out, t, c.q) => \E x \in 1..Len(c.a) : c.a[x] = k)
+                          /\ (c.q = 0 => c.a = <<>>)
+      [] c.op = "ftake" -> c.a = <<Min({k \in 1..n : KeyIn(rd.out, t, k) = KeyIn(rd.out, t, c.q)})>>
+      [] OTHER -> TRUE
+\* equal calls have equal answers, wherever they stand in the session (step excepted: it is the one call with a memory)
+AnswersHistoryFree ==
+  phase = "sess" =>
+    \A i, j \in 1..Len(sess.log) : (sess.log[i].op = sess.log[j].op /\ sess.log[i].q = sess.log[j].q /\ sess.log[i].op # "step")
+                                     => sess.log[i].a = sess.log[j].a
+\* the open iteration yields the children in order, each once, then stays exhausted - whatever is called in between
+LastOpen(log) == Max({0} \cup {i \in 1..Len(log) : log[i].op = "open"})
+SessIterInOrder ==
+  phase = "sess" =>
+    /\ (\A i \in 1..Len(sess.log) : sess.log[i].op = "step" => LastOpen(SubSeq(sess.log, 1, i)) > 0)
+    /\ LET st == SelectSeq(SubSeq(sess.log, LastOpen(sess.log) + 1, Len(sess.log)), LAMBDA c : c.op = "step") IN
+       \A i \in 1..Len(st) : st[i].a = (IF i <= Len(Kids(sess.tgt)) THEN <<i>> ELSE <<>>)
+SessionFrame == [][phase = "sess" => phase' = "sess" /\ UNCHANGED <<Mode, env, obj, bytes, decl, rd>> /\ sess'.tgt = sess.tgt
+                                     /\ Len(sess'.log) = Len(sess.log) + 1]_vars
+SessEnvsQuick == {[table |-> "arm", cls |-> 32, le |-> TRUE], [table |-> "riscv", cls |-> 32, le |-> FALSE]}
+SessEnvsOne == {[table |-> "arm", cls |-> 32, le |-> FALSE]}
 Generated == phase \in {"walk", "done"} => WellFormed(env.table, obj) /\ bytes[1] = 65
 \* the two tables cover exactly the tags the standards' tables list (kinds partition each table)
 ASSUME /\ ArmTagSet = DOMAIN ArmNames /\ RvTagSet = DOMAIN RvNames
